@@ -124,6 +124,12 @@ pub fn check(case: &Case) -> Verdict {
             None => top.push(i),
         }
     }
+    // identifiers handed out by new_object_id() but not stored yet are taken as well (an application reserves ids for
+    // objects it inserts later): derived from the case, 0..3 of them in every other case
+    let reserve = if case.padding & 1 == 1 { (case.padding >> 1) % 4 } else { 0 };
+    for _ in 0..reserve {
+        doc.new_object_id();
+    }
     let old_max = doc.max_id;
     let old_ids: BTreeSet<ObjectId> = doc.objects.keys().cloned().collect();
     no_panic("adjust_zero_pages", || doc.adjust_zero_pages())?;
@@ -142,6 +148,7 @@ pub fn check(case: &Case) -> Verdict {
             return Err(viol!("id-not-fresh", "outline object {:?} does not lie above the previous max_id {}", id, old_max));
         }
     }
+    rep.label_if(reserve > 0, "identifiers-reserved-before-build_outline");
     if doc.max_id < new_ids.iter().map(|i| i.0).max().unwrap_or(0) {
         return Err(viol!("id-not-fresh", "max_id {} is below an outline object id", doc.max_id));
     }
